@@ -342,6 +342,9 @@ def check_views(ctx: Ctx, rng, reqs):
             ddf = pd.DataFrame([{"time": cl.at(t), "instrument_name": "ETH-A", "mark_price": float(t)} for t in hours]).set_index(["time", "instrument_name"])
             dm = DeribitOptionMarket(MarketInfo("d", MarketTypeEnum.deribit_option), DeribitOptionMarket.ETH, data=ddf)
             impl_hour = []
+            # set_market_status consults the *previous* status when the hourly row is missing (to decide about a log line) and would
+            # raise AttributeError on the very first call (reported to the deribit builder): give it a previous status
+            dm._market_status = DeribitMarketStatus(index[0], pd.DataFrame())
             for i in range(n):
                 st = DeribitMarketStatus(index[i], None)
                 dm.set_market_status(st, None)
@@ -350,7 +353,7 @@ def check_views(ctx: Ctx, rng, reqs):
             hours = []
     except Exception as e:  # noqa: BLE001
         ctx.note("hour_probe", type(e).__name__ + str(e)[:80])
-        hours = []
+        hours, impl_hour = [], None
     reqs.append(({"views": True, "n": n}, {"shift": impl_shift, "closes": closes, "opens": opens, "twap": impl_twap, "S": [b["S"] for b in bars],
                                             "hour": impl_hour, "times": times},
                  {"fn": "views", "ts": [str(t) for t in times], "hours": [str(t) for t in hours]}))
